@@ -15,7 +15,8 @@ from ..xlref.values import outcome_matches, Err, XlError
 ID = 'C01'
 LEVEL = 'exploration'
 RULE = ('E1: every chain of k binary operators from {+ - * / & = <> < > <= >=} (quick k<=2, thorough k<=3 sampled), at '
-        'most one operand decorated with unary -, unary + or postfix %, every parenthesisation of one sub-chain, operand '
+        'most one operand decorated with unary -, unary + or postfix %, every parenthesisation of one sub-chain (quick also samples 3 000 chains '
+        'of length 3), operand '
         'kinds (number cell / text cell / literals) chosen so that the reference has an opinion; E2: random operator '
         'trees (depth<=4); each formula evaluated under workbook constants and under override valuations incl. a blank, a '
         'negative and a decimal operand; E3: numeric literal sweep compared exactly with float(text). A formula is '
@@ -24,7 +25,7 @@ RULE = ('E1: every chain of k binary operators from {+ - * / & = <> < > <= >=} (
 ASSUMPTIONS = ['vf/xlref is the reading of Excel operator semantics (precedence table of the statement)',
                'non-literal arithmetic compared at 1e-12 relative (15-digit normalisation of percent operands is an accepted reading)',
                'text forms of booleans/floats under & belong to C17 and are not generated']
-FLOORS = {'quick': {'evaluations': 6000, 'nontrivial': 1200, 'counters': {'entrypoint_parses': 3000}},
+FLOORS = {'quick': {'evaluations': 12000, 'nontrivial': 4000, 'counters': {'entrypoint_parses': 6000}},
           'thorough': {'evaluations': 120000, 'nontrivial': 20000, 'counters': {'entrypoint_parses': 50000}}}
 
 BIN = ['+', '-', '*', '/', '&', '=', '<>', '<', '>', '<=', '>=']
@@ -185,8 +186,10 @@ def plan(tier, seed):
     if tier == 'quick':
         for part in range(10):
             shards.append({'kind': 'chains', 'k': [1, 2], 'part': part, 'parts': 10, 'vals': [0, 1]})
-        for part in range(3):
-            shards.append({'kind': 'random', 'n': 170, 'depth': 4, 'vals': [0, 1]})
+        for part in range(6):
+            shards.append({'kind': 'chains', 'k': [3], 'part': part, 'parts': 24, 'vals': [0, 1], 'sample': 500})
+        for part in range(6):
+            shards.append({'kind': 'random', 'n': 400, 'depth': 4, 'vals': [0, 1, 2]})
         shards.append({'kind': 'literals', 'n': 5000})
         shards.append({'kind': 'special', 'vals': [0, 1]})
     else:
